@@ -211,10 +211,19 @@ def netns_case():
     return st.tuples(st.just("netns"), st.lists(spec, min_size=1, max_size=4, unique_by=lambda d: d["name"]))
 
 
+def mounts_threads_case():
+    """Two threads parse two different mount tables at the same time
+    (getmntent(3) keeps its entry in one static buffer)."""
+    line = st.tuples(st.sampled_from(MNT_DEV[:8]), st.sampled_from(MNT_DIR[:8]), st.sampled_from(MNT_TYPE[:10]),
+                     st.sampled_from(MNT_OPTS[:5])).map(lambda t: b" ".join(t) + b" 0 0")
+    return st.tuples(st.just("mounts-threads"), st.lists(line, min_size=40, max_size=200),
+                     st.lists(line, min_size=40, max_size=200))
+
+
 def strategy(tier):
     return st.one_of(call_case(), call_case(), call_case(), call_case(), call_case(), call_case(),
                      utmp_case(), utmp_case(), mounts_case(), mounts_case(),
-                     st.tuples(st.just("ifaces")), netns_case())
+                     st.tuples(st.just("ifaces")), netns_case(), mounts_threads_case())
 
 
 # ------------------------------------------------------------------ child side
@@ -555,6 +564,39 @@ def run_child_case(case):
         return Result(["ifaces", "ifaces=%d" % len(names)], "ifaces|" + ",".join(sorted(names)))
     if kind == "netns":
         return run_netns(case[1])
+    if kind == "mounts-threads":
+        import threading
+        d = _CHILD.setdefault("tmp", tempfile.mkdtemp(prefix="psv-c17-", dir=os.environ.get("VERIF_SCRATCH")))
+        paths, alone = [], []
+        for i, lines in enumerate((case[1], case[2])):
+            pth = os.path.join(d, f"mounts-thread-{i}")
+            with open(pth, "wb") as f:
+                f.write(b"\n".join(bytes(x) for x in lines) + b"\n")
+            paths.append(pth)
+            alone.append(cl.disk_partitions(pth))       # single-threaded answer
+        bad = []
+        barrier = threading.Barrier(2)
+
+        def worker(i):
+            barrier.wait()
+            for rep in range(30):
+                got = cl.disk_partitions(paths[i])
+                if got != alone[i]:
+                    diff = [(a_, b_) for a_, b_ in zip(got, alone[i]) if a_ != b_][:2]
+                    bad.append((i, rep, len(got), len(alone[i]), diff))
+                    return
+
+        ts = [threading.Thread(target=worker, args=(i,)) for i in (0, 1)]
+        for t in ts:
+            t.start()
+        for t in ts:
+            t.join()
+        if bad:
+            raise Violation("mounts-decoding",
+                            f"two threads parsing different mount tables at once: thread {bad[0][0]}, "
+                            f"repetition {bad[0][1]}: {bad[0][2]} entries (alone: {bad[0][3]}), "
+                            f"first differences {bad[0][4]}")
+        return Result(["mounts-threads"], "mounts-threads|%d|%d" % (len(case[1]) // 50, len(case[2]) // 50))
     raise HarnessError(f"unknown case kind {kind!r}")
 
 
